@@ -18,6 +18,20 @@ CHECKS = {
          "sites in hand-written table helpers outside the core zone, loop termination, the linear-time clause.",
     note="Trusted: rustc layout/MIR, bytemuck's own checks, confirmed per-function reasons in rules/confirmed_panics_read_fonts.json (read by hand). C01-d (generated shape agreement) is reported under C04's engine when built.",
  ),
+ "C02": dict(
+    technique="call-graph SCC recognisers, who-may-write-a-field queries, dominating-guard / must-pass-through path rules, result-fate queries, explicit-panic inventory",
+    design_ref="DESIGN.md §4 C02",
+    text="Claimed in part. Decides: no unsafe code in skrifa / IFT; every call-graph cycle in skrifa, IFT, the brotli wrapper and "
+         "the read-fonts code they reach is depth bounded (composites, paint graphs, charstring subroutines, GSUB nesting, IFT entry "
+         "trees: stack-exhaustion clause); the TrueType program counter is written only by the decoder, do_jump and leave, every "
+         "backward jump / loop call / call is charged to its budget or bounded stack before it takes effect, and the dispatch loop "
+         "leaves for good once MAX_RUN_INSTRUCTIONS is exceeded (runaway-program clause); a too-small scratch buffer becomes "
+         "InsufficientMemory and alloc_slice splits only after testing the re-aligned buffer's length; decode results are "
+         "propagated with the patch's own size cap and the sparse-bit-set height guard dominates node decoding; the explicit "
+         "unwrap/expect/panic! inventory equals the confirmed 35 sites. One genuine defect is a known finding (F5). Not decided: "
+         "bounds/overflow sites outside these rules, loop termination in CFF/autohint code, non-finite floats.",
+    note="Trusted: rustc MIR, call-graph construction (A-CB), confirmed per-function reasons in rules/confirmed_panics_client.json, the brotli FFI.",
+ ),
  "C05": dict(
     technique="path-sensitive typestate {dirty,clean} over MIR, dominating-guard and who-may-call queries, cast census, sibling-predicate agreement",
     design_ref="DESIGN.md §4 C05",
